@@ -132,7 +132,7 @@ func runC19(c *Ctx) error {
 	nth := c.Pick(6, 30)
 	thr := make([]*tr.Run, nth)
 	for i := range thr {
-		thr[i] = TT.NewRun("throttle", map[string]any{"period": 20000, "slack": 10000})
+		thr[i] = TT.NewRun("throttle", map[string]any{"period": 20000, "slack": 20000})
 		thr[i].Key = fmt.Sprintf("throttle%d", i)
 	}
 	Parallel(nth, func(i int) { c19Throttle(thr[i], 4+i%5) })
